@@ -523,6 +523,18 @@ Theorem C13_facts_of_data_agree : forall s,
   pi_data_agrees (facts_of_data s) /\ (DomFactsData.value_D04 s = false -> value_facts_agree (facts_of_data s)).
 Proof. exact facts_of_data_agree. Qed.
 
+(** [facts_of_data] writes the target t and the attribute name a in front of the argument, as the
+    harness does; XmlProcessingInstruction::set_content and XmlAttribute::set_values write the
+    target / the local name of the node they change.  The computed fact is the same for every stored
+    target (a run of name characters that is not xml) and every stored local name (an NCName): *)
+Theorem C13_pi_data_any_target : forall tg s,
+  forallb NameLanguage.NC tg = true -> XmlChars.is_xml_ci tg = false -> DomFactsData.pi_data_of tg s = pi_data_fact s.
+Proof. exact pi_data_any_target. Qed.
+
+Theorem C13_value_any_attribute_name : forall n s,
+  XmlChars.is_NCName n = true -> DomFactsData.value_of_name n s = value_fact s.
+Proof. exact value_any_attribute_name. Qed.
+
 (** the predicate of C02 on attribute values (the side condition of [att_value_language_except_D04]) is
     coarser than [value_D04]: it also excludes an ampersand that starts no reference *)
 Theorem C13_value_D04_c02 : forall s, XmlWFLexical.no_D04 s = true -> DomFactsData.value_D04 s = false.
@@ -615,6 +627,8 @@ Qed.
 Print Assumptions C13_facts_of_name_agree.
 Print Assumptions C13_facts_of_data_agree.
 Print Assumptions C13_value_D04_c02.
+Print Assumptions C13_pi_data_any_target.
+Print Assumptions C13_value_any_attribute_name.
 Print Assumptions C13_name_D04_refuted.
 Print Assumptions C13_value_D04_refuted.
 Print Assumptions C13_ref_loose_refuted.
